@@ -202,8 +202,15 @@ func (c *SessionCache) LookupNonExpired(id string) (*SessionEntry, bool) {
 
 	// Check if expired
 	if entry.IsExpired() {
-		// Remove expired session
+		// Remove expired session, and with it every command mapping that routes to
+		// it: a session stored later under the same id (claim and inherited
+		// sessions reuse theirs) must not be reachable through the old routes.
 		delete(c.sessions, id)
+		for key, sessID := range c.commandMap {
+			if sessID == id {
+				delete(c.commandMap, key)
+			}
+		}
 		return nil, false
 	}
 
